@@ -9,12 +9,28 @@ EXTENDS Integers, Sequences, FiniteSets, TLC, Json, IOUtils
 VARIABLES l, bad, dec
 Acceptable == {"", "SerializationError", "SymEngineException", "NotImplementedError", "DomainError", "DivisionByZeroError", "ParseError",
                "cereal::Exception", "std::runtime_error", "std::invalid_argument", "std::out_of_range", "std::length_error", "std::bad_alloc"}
+\* every typed slot of a loaded object holds an object of the slot's class (dump kinds by dynamic type)
+NumK == {"Int", "Rat", "Big", "BigRat", "Complex", "Dbl", "CDbl", "Inf", "NaN"}
+BoolK == {"True", "False", "Not", "And", "Or", "Xor", "Contains", "Equality", "Unequality", "LessThan", "StrictLessThan"}
+SetK == {"Interval", "FiniteSet", "Union", "Intersection", "Complement", "ImageSet", "ConditionSet", "Reals", "Integers", "Rationals", "Complexes", "Naturals", "Naturals0", "EmptySet", "UniversalSet"}
+SlotsOk(t) ==
+    CASE t.k = "Add" -> t.a[1].k \in NumK /\ \A i \in 2..Len(t.a) : t.a[i].k = "Pair" /\ t.a[i].a[2].k \in NumK
+      [] t.k = "Mul" -> t.a[1].k \in NumK
+      [] t.k = "Complex" -> \A i \in 1..Len(t.a) : t.a[i].k \in {"Int", "Rat", "Big", "BigRat"}
+      [] t.k = "Interval" -> \A i \in 1..Len(t.a) : t.a[i].k \in NumK
+      [] t.k \in {"Not", "And", "Or", "Xor"} -> \A i \in 1..Len(t.a) : t.a[i].k \in BoolK
+      [] t.k = "Contains" -> Len(t.a) = 2 /\ t.a[2].k \in SetK
+      [] t.k \in {"Union", "Intersection", "Complement"} -> \A i \in 1..Len(t.a) : t.a[i].k \in SetK
+      [] OTHER -> TRUE
+RECURSIVE WellTyped(_)
+WellTyped(t) == t.k \in {"Dbl", "Null"} \/ (SlotsOk(t) /\ \A i \in 1..Len(t.a) : WellTyped(t.a[i]))
 CheckEv(e) ==
     IF e.r.exc # "" THEN "bad:harness:" \o e.r.exc
     ELSE LET n == Len(e.r.out)
          IN IF \E i \in 1..n : e.r.out[i].exc = "VerifAssertionError" THEN "bad:non-canonical-object-built-from-bytes(assertion)"
             ELSE IF \E i \in 1..n : e.r.out[i].exc \notin Acceptable THEN "bad:foreign-exception:" \o e.r.out[CHOOSE i \in 1..n : e.r.out[i].exc \notin Acceptable].exc
             ELSE IF \E i \in 1..n : e.r.out[i].exc = "" /\ e.r.out[i].usable # 1 THEN "bad:unusable-result"
+            ELSE IF \E i \in 1..n : e.r.out[i].exc = "" /\ ~WellTyped(e.r.out[i].d) THEN "bad:object-of-another-class-in-a-typed-slot"
             ELSE "ok"
 Events == ndJsonDeserialize(IOEnv.TRACE)
 K == INSTANCE TraceKit WITH Check <- CheckEv, Events <- Events
